@@ -25,7 +25,7 @@ pub static DEF: PropDef = PropDef {
         "issuance entropy / asset / token ids are computed with the `elements` crate (an independent implementation)",
     ],
     shards: (32, 128),
-    budget_ms: (10_000, 30_000),
+    budget_ms: (60_000, 180_000),
 };
 
 fn h256(b: &[u8]) -> Rc<RV> {
